@@ -86,7 +86,7 @@ func DriveTree(r *rec.Rec, rng *rand.Rand, run, ops int, variant string) {
 		kind = []string{"int", "cmp", "set"}[(run/2)%3]
 	}
 	if kind == "mix" {
-		kind = []string{"int", "cmp", "rev", "str", "set", "setcmp"}[run%6]
+		kind = []string{"int", "cmp", "rev", "str", "set", "setcmp", "zero"}[run%7]
 	}
 	isSet := strings.HasPrefix(kind, "set")
 	coarse := kind == "coarse"
@@ -97,7 +97,7 @@ func DriveTree(r *rec.Rec, rng *rand.Rand, run, ops int, variant string) {
 		return k
 	}
 	cmpPerLevel := 30 // less-constructed: LessCompare makes up to two less calls per key comparison
-	if kind == "cmp" || kind == "coarse" || kind == "setcmp" {
+	if kind == "cmp" || kind == "coarse" || kind == "setcmp" || kind == "zero" {
 		cmpPerLevel = 15
 	}
 	var cmps int
